@@ -88,6 +88,13 @@ def model_line(c, K, cvs):
         for q in qs:
             p += [str(i) for i in q]
         return " ".join(p)
+    if fam == "histrestraint":
+        import math
+        p = ["HISTR", hx(M["k"]), hx(math.pi), hx(M["sigma"]), hx(M["lower"]), hx(M["width"]), str(len(M["ref"]))]
+        p += [hx(x) for x in M["ref"]] + [str(c["it0"]), str(T), str(K), str(len(cvs[0]))]
+        for t in range(T):
+            p += [hx(x) for x in cvs[t]]
+        return " ".join(p)
     if fam == "eabf":
         X = M["x"]
         p = ["EABF", hx(X["dt"]), hx(X["mass"]), hx(X["k"]), "1" if X["langevin"] else "0", hx(X["gf"]), hx(X["sigma"]),
@@ -278,6 +285,18 @@ def compare_case(c, K, fmt, mo, A, B, files):
             nh = len(re.findall(r"(?m)^\s*hill\s*\{", txt))
             if nh != int(mo["S"]["NH"]):
                 bad.append(("meta:state:hills", nh, int(mo["S"]["NH"])))
+        return bad
+    if fam == "histrestraint":
+        for tag, impl_steps, off in (("A", A, K + 1), ("B", B, 0)):
+            ms = mo[tag]
+            if len(ms) != len(impl_steps) - off:
+                bad.append(("histrestraint:%s:steps" % tag, len(impl_steps) - off, len(ms)))
+                continue
+            for j, m in enumerate(ms):
+                blk = impl_steps[off + j]
+                if int(m["it"]) != blk["it"] or not close(blk["bias"].get("hr", float("nan")), float.fromhex(m["E"])):
+                    bad.append(("histrestraint:%s:energy" % tag, (blk["it"], blk["bias"].get("hr")), (m["it"], float.fromhex(m["E"]))))
+                    break
         return bad
     if fam == "eabf":
         for tag, impl_steps, off in (("A", A, K + 1), ("B", B, 0)):
